@@ -1,6 +1,8 @@
 """C10 - references are rewritten only on request; a regenerated reference passes.
 Histories of set_regeneration / argv parsing / assertions on a sandbox directory, run against the
 real ReferenceTest and against RefTest/Regen.v; plus the property oracle on every step."""
+import contextlib
+import io
 import os
 import shutil
 
@@ -361,6 +363,119 @@ def run(ctx):
                                  'assertion in normal mode: %s' % (j, str(e)[:200]))
                     except Exception as e:
                         ctx.fail(dict(case, step=(j, k_)), 'normal-mode assertion raised %s: %s' % (type(e).__name__, str(e)[:200]))
+            shutil.rmtree(root, ignore_errors=True)
+        reset_class_state()
+        # ---------------- the pytest integration (referencepytest: --write KINDS / --write-all through the ref fixture):
+        # exactly the references of the named kinds are rewritten - also when a kind is the name of a directory or file
+        # in the directory pytest is started from (references of kind 'table' kept in ./table) - and nothing else
+        import subprocess
+        KINDS_P = ['table', 'graph', 'csv']
+        for it in range(6 if ctx.quick else 60):
+            proj = os.path.join(base, 'pytest%d' % it)
+            os.makedirs(os.path.join(proj, 'reference'))
+            for k_ in KINDS_P:
+                os.makedirs(os.path.join(proj, k_))
+                with open(os.path.join(proj, k_, k_ + '.txt'), 'w') as f_:
+                    f_.write('old %s\n' % k_)
+            with open(os.path.join(proj, 'reference', 'plain.txt'), 'w') as f_:
+                f_.write('old plain\n')
+            with open(os.path.join(proj, 'conftest.py'), 'w') as f_:
+                f_.write("import os, pytest\nfrom tdda.referencetest import referencepytest\n"
+                         "HERE = os.path.dirname(os.path.abspath(__file__))\n"
+                         "def pytest_addoption(parser):\n    referencepytest.addoption(parser)\n"
+                         "def pytest_collection_modifyitems(session, config, items):\n    referencepytest.tagged(config, items)\n"
+                         "@pytest.fixture(scope='module')\ndef ref(request):\n    r = referencepytest.ref(request)\n"
+                         "    r.set_data_location(os.path.join(HERE, 'reference'))\n"
+                         + ''.join("    r.set_data_location(os.path.join(HERE, %r), kind=%r)\n" % (k_, k_) for k_ in KINDS_P)
+                         + "    return r\n")
+            with open(os.path.join(proj, 'test_refs.py'), 'w') as f_:
+                f_.write(''.join("def test_%s(ref):\n    ref.assertStringCorrect('new %s\\n', '%s.txt', kind=%r)\n" % (k_, k_, k_, k_) for k_ in KINDS_P)
+                         + "def test_plain(ref):\n    ref.assertStringCorrect('new plain\\n', 'plain.txt')\n")
+            named = rng.sample(KINDS_P, rng.randint(1, 2))
+            spelling = rng.choice([[','.join(named)], list(named)])
+            write_all = rng.random() < 0.2
+            argv = ['--write-all'] if write_all else ['--write'] + spelling
+            if rng.random() < 0.5:
+                argv = ['--wquiet'] + argv
+            env_ = dict(os.environ, PYTHONPATH=lib.REPO, PYTHONHASHSEED='0', PYTHONDONTWRITEBYTECODE='1', TDDA_FAIL_DIR=os.path.join(proj, 'failtmp'))
+            pr = subprocess.run([lib.PY, '-m', 'pytest', '-q', '-p', 'no:cacheprovider', 'test_refs.py'] + argv, cwd=proj, env=env_,
+                                stdout=subprocess.PIPE, stderr=subprocess.STDOUT, text=True, timeout=300)
+            case = {'scenario': 'pytest ref fixture', 'argv': argv, 'kinds_with_their_own_directory_here': KINDS_P}
+            ctx.count(repr(case) + str(it), True)
+            ctx.bump('pytest.%s' % ('write-all' if write_all else 'write'))
+            if 'error' in pr.stdout.lower() and 'passed' not in pr.stdout and 'failed' not in pr.stdout:
+                ctx.fail(case, 'pytest did not run the tests: %s' % pr.stdout[-300:])
+                shutil.rmtree(proj, ignore_errors=True)
+                continue
+            now = {k_: open(os.path.join(proj, k_, k_ + '.txt')).read() for k_ in KINDS_P}
+            now['plain'] = open(os.path.join(proj, 'reference', 'plain.txt')).read()
+            want_new = set(KINDS_P + ['plain']) if write_all else set(named)
+            got_new = set(k_ for k_, t_ in now.items() if t_ == 'new %s\n' % k_)
+            odd = {k_: t_ for k_, t_ in now.items() if t_ not in ('new %s\n' % k_, 'old %s\n' % k_)}
+            if got_new != want_new or odd:
+                ctx.fail(case, 'pytest %s rewrote the references of %r (other content: %r); the kinds named select %r: %s'
+                         % (' '.join(argv), sorted(got_new), odd, sorted(want_new), pr.stdout[-200:]))
+            shutil.rmtree(proj, ignore_errors=True)
+        reset_class_state()
+        # ---------------- on-disk DataFrame assertions with a relative reference name and per-kind data locations: the
+        # regenerating assertion writes exactly one file, and the same assertion in normal mode then reads THAT file
+        import pandas as pd
+        for it in range(12 if ctx.quick else 200):
+            reset_class_state()
+            root = os.path.join(base, 'kinds%d' % it)
+            rt_k, Failed = make_rt(base)
+            locs = {None: os.path.join(root, 'default')}
+            for k_ in rng.sample(['csv', 'parquet', 'table'], rng.randint(1, 3)):
+                locs[k_] = os.path.join(root, 'loc-' + k_)
+            for k_, d_ in locs.items():
+                os.makedirs(d_)
+                rt_k.set_data_location(d_, kind=k_)
+            os.makedirs(os.path.join(root, 'actual'))
+            fmt = rng.choice(['parquet', 'csv'])
+            ap = os.path.join(root, 'actual', 'result.' + fmt)
+            fr = pd.DataFrame({'id': [1, 2, 3], 'v': [rng.choice([1.5, 2.5]) for _ in range(3)]})
+            (fr.to_parquet(ap) if fmt == 'parquet' else fr.to_csv(ap, index=False))
+            kind_kw = rng.choice([{}, {}, {'kind': 'csv'}, {'kind': 'table'}])
+            plural = rng.random() < 0.3
+            name = 'result.' + fmt
+            case = {'scenario': 'on-disk frame, relative reference name, per-kind locations', 'format': fmt,
+                    'locations': sorted(str(k_) for k_ in locs), 'kind_argument': kind_kw.get('kind', '<default>'), 'plural': plural}
+            ctx.count(repr(case) + str(it), True)
+            ctx.bump('ondisk_relative')
+
+            def listing():
+                out = {}
+                for dp, _, fs_ in os.walk(root):
+                    for f_ in fs_:
+                        if os.path.join(dp, f_) != ap:
+                            out[os.path.relpath(os.path.join(dp, f_), root)] = os.path.getsize(os.path.join(dp, f_))
+                return out
+
+            def call():
+                with contextlib.redirect_stdout(io.StringIO()):
+                    if plural:
+                        rt_k.assertOnDiskDataFramesCorrect([ap], [name], **kind_kw)
+                    else:
+                        rt_k.assertOnDiskDataFrameCorrect(ap, name, **kind_kw)
+            ReferenceTest.set_regeneration(None, True)
+            try:
+                call()
+            except Exception as e:
+                ctx.fail(case, 'the regenerating assertion raised %s: %s' % (type(e).__name__, str(e)[:200]))
+                shutil.rmtree(root, ignore_errors=True)
+                continue
+            wrote = listing()
+            if len(wrote) != 1:
+                ctx.fail(case, 'the regenerating assertion wrote %r (exactly one reference file expected)' % sorted(wrote))
+            ReferenceTest.set_regeneration(None, False)
+            try:
+                call()
+            except Failed as e:
+                ctx.fail(case, 'after regeneration (which wrote %r) the same assertion fails in normal mode: %s' % (sorted(wrote), str(e)[:200]))
+            except Exception as e:
+                ctx.fail(case, 'after regeneration (which wrote %r) the same assertion raises %s: %s' % (sorted(wrote), type(e).__name__, str(e)[:200]))
+            if listing() != wrote:
+                ctx.fail(case, 'the normal-mode assertion changed the files: %r -> %r' % (sorted(wrote), sorted(listing())))
             shutil.rmtree(root, ignore_errors=True)
         reset_class_state()
         # ---------------- regeneration over an existing reference of the same size and modification time
